@@ -90,7 +90,13 @@ func (con *Connection) EncryptedWrite(b []byte) (int, error) {
 func (con *Connection) DecryptedRead(b []byte) (int, error) {
 	for con.decrypted.Len() == 0 {
 		if frame := con.nextFrame(); frame != nil {
-			decrypted, err := con.getDecrypter().Decrypt(bytes.NewReader(frame))
+			decrypter := con.getDecrypter()
+			if decrypter == nil {
+				// the session is gone, the connection was closed in the meantime
+				return 0, io.ErrClosedPipe
+			}
+
+			decrypted, err := decrypter.Decrypt(bytes.NewReader(frame))
 			if err != nil {
 				log.Debug.Println("Decryption failed:", err)
 				con.connection.Close()
